@@ -39,15 +39,15 @@ READY = False
 
 BOUNDS = {
     "quick": {
-        "A": "all bodies of weight <=3, depth <=3, full alphabet (16 rotating spellings; weight <=2 under all 16); weight 4 over the skeleton alphabet",
+        "A": "all bodies of weight <=3, depth <=3, full alphabet (16 rotating spellings, one per program; weight <=1 under all 16, weight 2 under 4); weight 4, depth <=4 over the skeleton alphabet without def calls",
         "B": "9 frames x 7 iterables x 10 loop uses x 5 exits, enable_loop on; the three other modes on 2 frames; 72 two-deep frame compositions x 1 iterable x 3 uses x 5 exits",
         "B2": "12 use sites x 2 frames x 2 iterables x 3 for-line comments x modes on/page",
-        "C": "skeletons with <=3 '%' lines: all 4^n indentations x LF/CRLF ('% kw' / '%kw' / '%  kw' rotating); 4..6 lines: 16-row cover x LF/CRLF",
+        "C": "skeletons with <=3 '%' lines: all 4^n indentations (LF/CRLF and '% kw' / '%kw' / '%  kw' rotating); 4..6 lines: 16-row cover x LF/CRLF",
         "D": "block shapes x 4 margins x 5 positions x LF/CRLF",
         "E": "except forms x raised x handler count",
     },
     "thorough": {
-        "A": "all bodies of weight <=4, depth <=3, full alphabet (16 rotating spellings; weight <=3 under 4 spellings); weight 5, depth <=5 over the skeleton alphabet",
+        "A": "all bodies of weight <=4, depth <=3, full alphabet (16 rotating spellings, one per program; weight <=2 under all 16, weight 3 under 4); weight 5, depth <=5 over the skeleton alphabet",
         "B": "9 frames x 7 iterables x 10 loop uses x 5 exits x 4 enable_loop modes; 72 two-deep frame compositions x 7 x 10 x 5, enable_loop on",
         "B2": "12 use sites x 9 frames x 7 iterables x 3 for-line comments x 4 modes",
         "C": "skeletons with <=4 '%' lines: all 4^n indentations x LF/CRLF ('% kw' / '%kw' / '%  kw' rotating); 5..8 lines: 16-row cover x LF/CRLF",
@@ -128,11 +128,12 @@ def with_mode(prog, mode):
     return prog
 
 
-def alphabet(dat, full=True, skel=False):
+def alphabet(dat, full=True, skel=False, without=()):
     it = dat["items"]
     return {
         "full": full,
         "skel": skel,
+        "without": without,
         "tgt": "i",
         "var": "x",
         "iter": "[%d, %d]" % (it[0], it[1]),
@@ -324,13 +325,19 @@ def _esc_inner_tabs(line):
     return line[:lead] + line[lead:].replace("\t", "\\t")
 
 
+_LEAF_KINDS = ("text", "expr", "comment", "doc")
+
+
 def general_sig(fam, prog, exp, obs):
+    """footprint of an unexplained disagreement: what was expected / observed, and the
+    control constructs and <% %> statement kinds the program is made of"""
     ks, depth = IR.kinds(prog)
     if exp[0] == "ok" and obs[0] == "ok":
         what = "ok->different-output"
     else:
         what = "%s->%s" % (_kind(exp), _kind(obs))
-    return "%s %s [%s]" % (fam, what, ",".join(sorted(ks)))
+    ks = sorted(k for k in ks if k not in _LEAF_KINDS and not k.startswith("py:w"))
+    return "%s [%s]" % (what, ",".join(ks))
 
 
 class Checker:
@@ -429,7 +436,7 @@ def family_A(tier, dat):
     """yields (fam, prog, mode, [spellings])"""
     texts = dat["texts"]
     wfull = 3 if tier == "quick" else 4
-    wall16 = 2 if tier == "quick" else 0
+    wall16 = 1 if tier == "quick" else 2
     w4 = 0 if tier == "quick" else 3
     g = IR.Gen(3, alphabet(dat, True))
     idx = 0
@@ -439,7 +446,7 @@ def family_A(tier, dat):
         mode = MODES[(idx // 16) % 4]
         if w <= wall16:
             sps = [spelling(k) for k in range(16)]
-        elif w <= w4:
+        elif w <= w4 or (tier == "quick" and w <= 2):
             sps = [spelling((idx + 5 * j) % 16) for j in range(4)]
         else:
             sps = [spelling(idx % 16)]
@@ -453,7 +460,7 @@ def family_A(tier, dat):
             yield ("lazy", lambda b=b, idx=idx, w=w: full(b, idx, w))
             idx += 1
     wsk = wfull + 1
-    gs = IR.Gen(5, alphabet(dat, False, True))
+    gs = IR.Gen(5, alphabet(dat, False, True, without=("call",) if tier == "quick" else ()))
     for b in gs.iter_top(wsk):
         yield ("lazy", lambda b=b, idx=idx: skel(b, idx))
         idx += 1
@@ -738,7 +745,7 @@ def family_C(tier, dat):
         sps = []
         if n <= full_n:
             for combo in itertools.product(IR.IND, repeat=n):
-                for nl in ("\n", "\r\n"):
+                for nl in ("\n", "\r\n") if tier != "quick" else (("\n", "\r\n")[(len(sps) // 5) % 2],):
                     sps.append(IR.Spell(nl=nl, ind=list(combo), pct=[("% ", "%", "%  ")[len(sps) % 3]], m=len(sps)))
         else:
             for a, b in cover16():
